@@ -122,7 +122,7 @@ def main():
           for p in props if p not in CLAIMS]
     man = dict(
         version=1,
-        setup_cmd="cd lean && lake build SMV " + " ".join(f"SMV.Props.{p}" for p in props) +
+        setup_cmd="cd lean && lake build SMV SMV.Props.Examples " + " ".join(f"SMV.Props.{p}" for p in props) +
                   " driver drv_bind drv_expr drv_validate drv_protocol drv_diagram drv_decl drv_store",
         hooks=dict(guard="PYSM_VERIF", enable="no source hooks are used: observation is through the public API, sys.settrace and objects supplied by the harness",
                    baseline_off_cmd=BASE.get("cmd", "cd /repo && /venv/bin/python -m pytest -q"), source_commits=[], add_only=True),
